@@ -198,6 +198,15 @@ func genReaderPlan(src *choice.Src, cfg *gen.Cfg, minTasks, maxTasks, maxOps int
 		ops = append(ops, c)
 		p.Tasks[0] = append(ops, p.Tasks[0][at:]...)
 	}
+	if nt > 1 && src.Chance("cancel.concurrent", 1, 5) {
+		// one task cancels an attached context while the others use it
+		t := src.Draw("cancel.task", nt)
+		c := Op{Kind: "Cancel", Ctx: src.Draw("cancel.ctx", p.NCtx)}
+		at := src.Draw("cancel.at", len(p.Tasks[t])+1)
+		ops := append([]Op{}, p.Tasks[t][:at]...)
+		ops = append(ops, c)
+		p.Tasks[t] = append(ops, p.Tasks[t][at:]...)
+	}
 	p.Sched = sched.Config{Seed: uint64(src.Draw("sched.seed", 1<<30)) + 1, Policy: src.Draw("sched.policy", sched.NPolicies), StepCap: 200000}
 	return p
 }
